@@ -433,6 +433,16 @@ pub fn run(tier: &Tier, args: &[String]) -> i32 {
         }
         let reference = match serial_reference(disk, &template, variant, &root) {
             Ok(r) => r,
+            Err(e) if e.contains("not relying-party valid") => {
+                // even one at a time the calls of this variant end, after
+                // all background work, in a tree that does not validate
+                out.findings.push(Finding {
+                    signature: format!("serial-execution-invalid|{} @ variant={variant}", crate::e1::normalize(&e)),
+                    text: format!("[{variant}/{}] a one-at-a-time execution of the variant's calls, followed by all background work, ends in a published tree that is {e}", if disk { "disk" } else { "memory" }),
+                    replay: json!({"variant": variant, "disk": disk, "kind": "serial-execution-invalid", "detail": e}),
+                });
+                continue;
+            }
             Err(e) => {
                 out.machinery_errors.push(format!("{variant}: serial reference: {e}"));
                 continue;
